@@ -142,6 +142,12 @@ func derivedFrom(v, E ssa.Value, depth int) bool {
 	if depth > 4 {
 		return false
 	}
+	// a sentinel error of another package (io.ErrShortWrite) is a reported failure as well
+	if ld, ok := v.(*ssa.UnOp); ok && ld.Op == token.MUL {
+		if g, ok := ld.X.(*ssa.Global); ok && types.Identical(g.Type().(*types.Pointer).Elem(), errType) && g.Pkg != nil && E.Parent() != nil && g.Pkg != E.Parent().Pkg {
+			return true
+		}
+	}
 	switch x := v.(type) {
 	case *ssa.Call:
 		for _, a := range x.Call.Args {
@@ -295,6 +301,22 @@ func ruleErrChk(c *Ctx, r *RuleResult, fnName, sinkParam string) {
 		why      string
 	}
 	stickies := map[ssa.Value]*sticky{}
+	// forwarding wrappers: writes through them are writes to the sink
+	forwarders := map[*ssa.Alloc]bool{}
+	isSink := func(v ssa.Value) bool {
+		if v == sink {
+			return true
+		}
+		if al, ok := v.(*ssa.Alloc); ok && forwarders[al] {
+			return true
+		}
+		if ld, ok := v.(*ssa.UnOp); ok && ld.Op == token.MUL {
+			if al, ok := ld.X.(*ssa.Alloc); ok && forwarders[al] {
+				return true
+			}
+		}
+		return false
+	}
 	for _, ref := range *sink.Referrers() {
 		mi, isMI := ref.(*ssa.MakeInterface)
 		var refs []ssa.Instruction
@@ -320,6 +342,17 @@ func ruleErrChk(c *Ctx, r *RuleResult, fnName, sinkParam string) {
 			wfield := stT.Underlying().(*types.Struct).Field(fa.Field).Name()
 			sk := analyseSticky(c, al.Type(), wfield)
 			if sk.errField == "" {
+				// not a recorder: a plain forwarder? (a struct around the writer whose Write hands the
+				// bytes on and returns what it got back)
+				if okF, whyF, decided := analyseForwarder(c, al.Type(), wfield); decided {
+					r.inst("%s: forwarding wrapper %s around %s", fnName, typeShort(stT), sinkParam)
+					r.oblig(okF)
+					if !okF {
+						r.find(fnName+":"+typeShort(stT)+".Write drops the write error", c.instrPos(st), "%s writes through %s, whose Write %s: a failed write of the underlying writer is reported to %s as success", fnName, typeShort(stT), whyF, fnName)
+					}
+					forwarders[al] = true
+					continue
+				}
 				r.undecided("%s stores %s into %s but that type is not a recognisable error-recording writer (%s)", fnName, sinkParam, typeShort(stT), sk.why)
 				continue
 			}
@@ -348,7 +381,7 @@ func ruleErrChk(c *Ctx, r *RuleResult, fnName, sinkParam string) {
 						a0 := stripIface(call.Call.Args[0])
 						_, onWrapper := wrappers[a0]
 						_, onSticky := stickies[a0]
-						if a0 == sink || onWrapper || onSticky {
+						if isSink(a0) || onWrapper || onSticky {
 							wrappers[call] = why
 							changed = true
 							r.inst("%s: wrapper construction %s around %s", fnName, f.String(), valName(a0))
@@ -374,7 +407,7 @@ func ruleErrChk(c *Ctx, r *RuleResult, fnName, sinkParam string) {
 			for _, a := range ops {
 				v := stripIface(a)
 				_, isW := wrappers[v]
-				if v == sink || isW {
+				if isSink(v) || isW {
 					name := "call"
 					if f := d.Call.StaticCallee(); f != nil {
 						name = "call " + c.short(f)
@@ -474,7 +507,7 @@ func ruleErrChk(c *Ctx, r *RuleResult, fnName, sinkParam string) {
 			}
 			for i, a := range operands {
 				v := stripIface(a)
-				if v == sink {
+				if isSink(v) {
 					kind = "direct"
 				}
 				if _, ok := wrappers[v]; ok {
@@ -510,7 +543,7 @@ func ruleErrChk(c *Ctx, r *RuleResult, fnName, sinkParam string) {
 				errChkSeen[cal] = true
 				if nres := cal.Signature.Results().Len(); nres > 0 && types.Identical(cal.Signature.Results().At(nres-1).Type(), errType) {
 					for k, a := range call.Call.Args {
-						if stripIface(a) == sink && k < len(cal.Params) {
+						if isSink(stripIface(a)) && k < len(cal.Params) {
 							ruleErrChk(c, r, c.short(cal), cal.Params[k].Name())
 						}
 					}
@@ -597,6 +630,9 @@ func ruleErrChk(c *Ctx, r *RuleResult, fnName, sinkParam string) {
 				if _, isSticky := stickies[fa.X]; isSticky {
 					continue
 				}
+				if al, isAl := fa.X.(*ssa.Alloc); isAl && forwarders[al] {
+					continue // writes through a forwarding wrapper are followed (isSink)
+				}
 			}
 			r.undecided("%s stores %s at %s; writes through the copy are not tracked", fnName, sinkParam, c.instrPos(x))
 		}
@@ -618,7 +654,7 @@ func init() {
 		},
 		controls: func(ctl *Ctx) []*RuleResult {
 			var out []*RuleResult
-			for _, f := range []string{"errctl.BadFlushDropped", "errctl.BadErrSwallowed", "errctl.BadCheckedLate", "errctl.BadDeferredFlush", "errctl.BadNeverFlushed", "errctl.BadStickyWriter", "errctl.BadStickyIgnored", "errctl.BadSingleCellLine", "errctl.BadSingleCellFirstRow"} {
+			for _, f := range []string{"errctl.BadFlushDropped", "errctl.BadErrSwallowed", "errctl.BadCheckedLate", "errctl.BadDeferredFlush", "errctl.BadNeverFlushed", "errctl.BadStickyWriter", "errctl.BadStickyIgnored", "errctl.BadSingleCellLine", "errctl.BadSingleCellFirstRow", "errctl.BadForwarder"} {
 				e := &RuleResult{Rule: "ERRCHK"}
 				ruleErrChk(ctl, e, f, "w")
 				out = append(out, e)
@@ -629,6 +665,7 @@ func init() {
 			ruleErrChk(ctl, g, "errctl.GoodStickyWriter", "w")
 			ruleErrChk(ctl, g, "errctl.GoodRowsThroughHelper", "w")
 			ruleErrChk(ctl, g, "errctl.GoodSingleCellChecked", "w")
+			ruleErrChk(ctl, g, "errctl.GoodForwarder", "w")
 			out[0].Findings = append(out[0].Findings, g.Findings...)
 			d := ruleDomain(ctl, "errctl.BadDomain", "weights", "n")
 			d2 := ruleDomain(ctl, "errctl.GoodDomain", "weights", "n")
@@ -774,4 +811,98 @@ func ruleSignConv(c *Ctx, pkgRel string) *RuleResult {
 		}
 	}
 	return r
+}
+
+// analyseForwarder: the struct type (pointer to it) has a Write method that calls Write on its field
+// wfield exactly once and whose returns, from that call on, agree with the error it got back (the
+// same CFG exploration as for the writes of LIB itself). decided=false when the type has no such
+// method shape.
+func analyseForwarder(c *Ctx, ptrT types.Type, wfield string) (ok bool, why string, decided bool) {
+	pt, isPtr := ptrT.Underlying().(*types.Pointer)
+	if !isPtr {
+		return false, "", false
+	}
+	named, isNamed := pt.Elem().(*types.Named)
+	if !isNamed {
+		return false, "", false
+	}
+	var wr *ssa.Function
+	for _, fn := range c.Funcs {
+		if fn.Name() != "Write" || fn.Signature.Recv() == nil || fn.Synthetic != "" || fn.Blocks == nil {
+			continue
+		}
+		rt := fn.Signature.Recv().Type()
+		if p, ok := rt.(*types.Pointer); ok {
+			rt = p.Elem()
+		}
+		if types.Identical(rt, named) {
+			wr = fn
+		}
+	}
+	if wr == nil || wr.Signature.Results().Len() != 2 {
+		return false, "", false
+	}
+	recv := wr.Params[0]
+	var inner []*ssa.Call
+	for _, b := range wr.Blocks {
+		for _, in := range b.Instrs {
+			call, isCall := in.(*ssa.Call)
+			if !isCall || !call.Call.IsInvoke() || call.Call.Method.Name() != "Write" {
+				continue
+			}
+			v := call.Call.Value
+			onField := false
+			switch x := v.(type) {
+			case *ssa.Field:
+				if st, ok := x.X.Type().Underlying().(*types.Struct); ok && x.X == ssa.Value(recv) && st.Field(x.Field).Name() == wfield {
+					onField = true
+				}
+			case *ssa.UnOp:
+				if fa, ok := x.X.(*ssa.FieldAddr); ok && x.Op == token.MUL && (fa.X == ssa.Value(recv) || spillOf(fa.X, recv)) {
+					if st, ok := fa.X.Type().Underlying().(*types.Pointer).Elem().Underlying().(*types.Struct); ok && st.Field(fa.Field).Name() == wfield {
+						onField = true
+					}
+				}
+			}
+			if onField {
+				inner = append(inner, call)
+			}
+		}
+	}
+	if len(inner) != 1 {
+		return false, "", false
+	}
+	var E ssa.Value
+	if refs := inner[0].Referrers(); refs != nil {
+		for _, ref := range *refs {
+			if ex, ok := ref.(*ssa.Extract); ok && ex.Index == 1 {
+				E = ex
+			}
+		}
+	}
+	if E == nil {
+		return false, "discards the error of the underlying Write", true
+	}
+	if okH, _, whyH := errHandled(wr, inner[0], E); !okH {
+		return false, "does not hand the error of the underlying Write back on every path (" + whyH + ")", true
+	}
+	return true, "", true
+}
+
+// spillOf: a is the local copy a value receiver (or struct parameter) was spilled to.
+func spillOf(a ssa.Value, prm *ssa.Parameter) bool {
+	al, ok := a.(*ssa.Alloc)
+	if !ok || al.Referrers() == nil {
+		return false
+	}
+	n := 0
+	for _, ref := range *al.Referrers() {
+		if st, ok := ref.(*ssa.Store); ok && st.Addr == ssa.Value(al) {
+			if st.Val != ssa.Value(prm) {
+				return false
+			}
+			n++
+		}
+	}
+	return n == 1
 }
